@@ -186,4 +186,15 @@ def tagCalls (complete : Bool) (detections : List (Nat × Int)) : List Nat :=
 index is an input of the model -/
 def sampleDelay (l : List Int) (i : Nat) : Option Int := l[i % l.length]?
 
+/-- the tag requests (`TaggingInfo` handed to `Site.tag_emissions_at_component`) a survey step of the
+component-level method `company` with reporting delay `trd` issues: one per tagging call of
+`tagCalls`, each carrying the method's own name and reporting delay -/
+def tagEvs (company : Nat) (trd : Int) (complete : Bool) (detections : List (Nat × Int)) :
+    List (Nat × TagEv) :=
+  (tagCalls complete detections).map (fun c => (c, { company := company, trd := trd }))
+
+/-- `ComponentLevelMethod.survey_site`: the site's "latest tagging survey date" after the step —
+moved to the current day exactly when the survey completed -/
+def latestTaggingSurvey (complete : Bool) (prev cur : Int) : Int := if complete then cur else prev
+
 end LdarModel.Emission
